@@ -393,6 +393,8 @@ def equal(a, b):
         za = a.z if isinstance(a, SVal) else z3.BitVecVal(a, 64)
         zb = b.z if isinstance(b, SVal) else z3.BitVecVal(b, 64)
         return za == zb
+    if getattr(ka, 'name', None) == 'Any' and getattr(kb, 'name', None) == 'Any':
+        return a.z == b.z            # opaque tokens: equal values have equal tokens (uninterpreted, so distinctness is not known)
     if ka == KBool and kb == KBool:
         # Bool == Bool as an equivalence (not through 0/1): keeps quantified operands out of ite terms
         za = a.z if isinstance(a, SVal) else zbool(a)
